@@ -235,10 +235,16 @@ def gen_case(rng, force=None):
     gens = []
     if names and has(0.7):
         keys = set()
+        dup_keys = has(0.15)
         for _ in range(rng.choice(LIST_LENGTHS[1:6])):
             blk = rng.choice(names)
             gname = own_fix('%3s%2d' % (rng.choice(['wel', 'inj', ' ab', 'SS ']), rng.randint(0, 99)))
-            if (blk, gname) in keys:
+            if dup_keys and gens and has(0.4):
+                # a second generator in the same block under the same name (an unnamed MASS plus an unnamed HEAT source is
+                # ordinary TOUGH2 input): both are records of the deck, both must survive
+                g0 = gens[-1] if has(0.5) else rng.choice(gens)
+                blk, gname = g0['block'], g0['name']
+            if (blk, gname) in keys and not dup_keys:
                 continue
             keys.add((blk, gname))
             gtype = rng.choice(GEN_TYPES_AUT if aut else GEN_TYPES_T2)
@@ -259,6 +265,7 @@ def gen_case(rng, force=None):
                         g['enthalpy'] = [real(rng, '14.7e', True) for _ in range(nt)]
             gens.append(g)
     c['generators'] = gens
+    c['duplicate_generator_keys'] = len(set((g['block'], g['name']) for g in gens)) < len(gens)
 
     infile = mesh == 'infile'
     # short output (AUTOUGH2, in-file mesh only)
